@@ -127,10 +127,15 @@ def dump_graph(chk, cfg):
     return extgraph.Graph(dot, cmd_of), r
 
 
-def simulate(chk, cfg, num, depth):
-    d = vlib.scratch("climain-sim-%s-%d" % (cfg, chk.seed))
-    r = vlib.tlc(SPECDIR, "ClientMain", cfg, workers=1, timeout=600, simulate="file=%s/t,num=%d" % (d, num),
-                 depth=depth, seed=chk.seed, keep_prints=False)
+def simulate(chk, cfg, num, depth, over=None, tag=""):
+    d = vlib.scratch("climain-sim-%s%s-%d" % (cfg, tag, chk.seed))
+    files, cfgname = None, cfg
+    if over:
+        consts = extgraph.with_constants(extgraph.read_cfg_constants(os.path.join(SPECDIR, cfg)), **over)
+        cfgname = cfg.replace(".cfg", "%s.cfg" % tag)
+        files = {cfgname: extgraph.cfg_text(consts, "GenSpec", invariants=INVS)}
+    r = vlib.tlc(SPECDIR, "ClientMain", cfgname, workers=1, timeout=600, simulate="file=%s/t,num=%d" % (d, num),
+                 depth=depth, seed=chk.seed, keep_prints=False, files=files)
     if r.error:
         raise vlib.Inconclusive("ClientMain simulation %s: %s" % (cfg, r.error))
     out = []
@@ -151,26 +156,29 @@ def simulate(chk, cfg, num, depth):
 # --------------------------------------------------------------------------
 # model checking
 
+def cex_labels(out):
+    """action labels (with arguments, which may contain parentheses) of the states of a TLC counterexample"""
+    return [m.group(1) for m in re.finditer(r"^State \d+: <(\w+(?:\(.*\))?) line \d+, col ", out, re.M)]
+
+
 def model_check_start(chk, q):
     """design-level model checking + vacuity guards, all started side by side; model_check_collect joins them"""
-    cfgs = ["MC_q_one.cfg", "MC_q_loop.cfg", "MC_q_main.cfg"] if q else ["MC_one.cfg", "MC_main.cfg", "MC_one2.cfg", "MC_two.cfg"]
-    gen_base = "Gen_q.cfg" if q else "Gen_one.cfg"
+    cfgs = ["MC_q_copy.cfg", "MC_q_socks.cfg", "MC_q_main.cfg", "MC_table.cfg"] if q else \
+           ["MC_copy.cfg", "MC_socks1.cfg", "MC_main.cfg", "MC_table.cfg", "MC_copy2.cfg", "MC_socks2.cfg", "MC_main2.cfg", "MC_table2.cfg"]
     jobs = []
     for cfg in cfgs:
-        big = cfg in ("MC_two.cfg", "MC_one2.cfg")
-        jobs.append((cfg, extgraph.Bg(vlib.tlc, SPECDIR, "ClientMain", cfg, workers=(6 if big else 2), timeout=1500, keep_prints=False,
-                                      coverage=(not q and cfg in ("MC_one.cfg", "MC_main.cfg")), heap="4g" if big else None)))
+        big = cfg in ("MC_copy2.cfg", "MC_socks2.cfg", "MC_main2.cfg")
+        jobs.append((cfg, extgraph.Bg(vlib.tlc, SPECDIR, "ClientMain", cfg, workers=(6 if big else 4 if cfg == "MC_table.cfg" else 2), timeout=1500, keep_prints=False,
+                                      coverage=(not q and cfg in ("MC_copy.cfg", "MC_socks1.cfg", "MC_main.cfg")), heap="4g" if big else None)))
     guards = []
     for name, base, over, want, gen, gover in WHATIF:
         gbg = bg = None
         if gen is not None:
-            gcfg = "Gen_one.cfg" if name == "dropChunk" else gen_base       # the second chunk needs NUp = 2
-            gconsts = extgraph.with_constants(extgraph.read_cfg_constants(os.path.join(SPECDIR, gcfg)), **gover)
+            gconsts = extgraph.with_constants(extgraph.read_cfg_constants(os.path.join(SPECDIR, gen)), **gover)
             gbg = extgraph.Bg(extgraph.tlc_raw, None, SPECDIR, "ClientMain", "WG_%s.cfg" % name, extgraph.cfg_text(gconsts, "GenSpec", invariants=INVS), workers=1, timeout=300)
-        if want is not None and (gen is None or not q):
+        if want is not None and (gen is None or not q) and not name.startswith("asis-"):
             consts = extgraph.with_constants(extgraph.read_cfg_constants(os.path.join(SPECDIR, base)), **over)
-            inv = INVS + (["DrainOnExit"] if name == "drain" else [])
-            bg = extgraph.Bg(extgraph.tlc_raw, None, SPECDIR, "ClientMain", "WI_%s.cfg" % name, extgraph.cfg_text(consts, "Spec", invariants=inv), workers=1, timeout=300)
+            bg = extgraph.Bg(extgraph.tlc_raw, None, SPECDIR, "ClientMain", "WI_%s.cfg" % name, extgraph.cfg_text(consts, "Spec", invariants=INVS), workers=1, timeout=300)
         guards.append((name, want, gen, gbg, bg))
     lives = []
     if not q:
@@ -194,7 +202,7 @@ def model_check_collect(chk, started):
         for a, (d, t) in r.coverage.items():
             taken[a] = taken.get(a, 0) + t
     if taken:
-        never_ok = {"Init"}
+        never_ok = {"Init", "DialWillFail"}
         zero = sorted(a for a, t in taken.items() if t == 0 and a not in never_ok)
         chk.cov.setdefault("coverage_zero_actions", [])
         chk.cov["coverage_zero_actions"] += ["ClientMain:" + z for z in zero]
@@ -226,9 +234,9 @@ def guard_schedules(chk, started):
         if v != want:
             chk.fail("vacuity: ClientMain what-if %s gives %s at the replay grain (%s), expected %s" % (name, v, gen, want))
             continue
-        steps = [c for c in (cmd_of(l) for l in extgraph.cex_labels(r.out) if l.startswith("G")) if c]
-        if steps and name != "nostats":
-            out.append({"mode": "gated", "steps": steps, "src": "cex:" + name})
+        steps = [c for c in (cmd_of(l) for l in cex_labels(r.out) if l.startswith("G")) if c]
+        if steps:
+            out.append({"mode": GEN_MODE[gen], "steps": steps, "src": "cex:" + name})
     return out
 
 
@@ -251,7 +259,6 @@ def crash_message(out):
     if not m:
         return None
     tail = out[m.start():]
-    # innermost frames: repository code, and not the harness's own functions, must be on the panicking goroutine
     first = tail.split("\n\n")[0] + "\n" + (tail.split("\n\n")[1] if "\n\n" in tail else "")
     frames = re.findall(r"^(\S+)\(.*\)$", first, re.M)
     own = [f for f in frames if "snowflake.git/v2/" in f and ".vCli" not in f and ".(*vCli" not in f]
@@ -281,6 +288,9 @@ def run_shard(binary, scheds, tag, patience_ms=None, extra_env=None):
     return traces
 
 
+CRASHED = set()
+
+
 def run_shard_surviving(chk, binary, scheds, tag, patience_ms=None, extra_env=None):
     """run_shard, but a process that dies inside the code under test is a finding of the schedule that was running:
     it is confirmed alone, reported, and the rest of the shard continues in a new process"""
@@ -307,12 +317,8 @@ def run_shard_surviving(chk, binary, scheds, tag, patience_ms=None, extra_env=No
     return out
 
 
-CRASHED = set()
-
-
 def run_schedules(binary, scheds, tag, patience_ms=None, shards=SHARDS, extra_env=None, chk=None):
-    """one schedule at a time per process (the ORPort address is a package variable of the code under test);
-    several processes side by side"""
+    """one schedule at a time per process (hook, logger and goroutine census are process-wide); several processes side by side"""
     if not scheds:
         return []
     shards = max(1, min(shards, len(scheds)))
@@ -327,15 +333,47 @@ def run_schedules(binary, scheds, tag, patience_ms=None, shards=SHARDS, extra_en
     return sorted(out, key=lambda t: t["id"])
 
 
+def cfg_brief(c):
+    if not c.get("hascfg"):
+        return "-"
+    return ",".join("%s=%s" % (f, {0: "flag", -2: "?"}.get(c["cfg"][f], "arg%s" % c["cfg"][f])) for f in FIELDS)
+
+
 def brief(e):
     if e.get("ev") == "obs":
-        return "obs loop=%s pauses=%d conns=%s" % (e["loop"], e["pauses"], ["%s/%s/%s closed=%s(%d) taken=%d cgot=%s ogot=%s ofin=%s oclosed=%s dialerr=%s%s" % (
-            c["h"], c["a"], c["b"], c["closed"], c.get("ncloses", 0), c["taken"], c["cgot"], c["ogot"], c["ofin"], c["oclosed"], c["dialerr"],
-            " USE-AFTER-RETURN" if c["use"] else "") for c in e["conns"]])
+        return "obs loop=%s pauses=%d lncloses=%d shutdown=%s wgzero=%s sfcloses=%d conns=%s" % (
+            e["loop"], e["pauses"], e["lncloses"], e["shutdown"], e["wgzero"], e["sfcloses"],
+            ["%s/%s/%s/%s reply=%s sclosed=%s cfg[%s]" % (c["h"], c["d"], c["u"], c["v"], c["reply"], c["sclosed"], cfg_brief(c)) for c in e["conns"]])
+    if e.get("ev") == "cobs":
+        return "cobs caller=%s/%s copiers=%s/%s closes socks=%d sf=%d taken=%d/%d socks-got=%s sf-got=%s" % (
+            e["h"], e["d"], e["u"], e["v"], e["sclosed"], e["fclosed"], e["staken"], e["ftaken"], e["sgot"], e["fgot"])
     if e.get("ev") == "pobs":
         return "pobs exited=%s%s conns=%s" % (e["exited"], (" exit=%s after %d ms" % (e.get("code"), e.get("ms", -1))) if e["exited"] else "",
-                                              ["cgot=%s ogot=%s ofin=%s" % (c["cgot"], c["ogot"], c["ofin"]) for c in e["conns"]])
+                                              ["reply=%s sclosed=%s cfg[%s]" % (c["reply"], c["sclosed"], cfg_brief(c)) for c in e["conns"]])
     return json.dumps(e, sort_keys=True)
+
+
+def config_signature(i, c, args):
+    """what is wrong with the config connection i (1-based) was given, in abstract terms; None: nothing visible"""
+    if not c.get("hascfg"):
+        return None
+    for f in FIELDS:
+        v = c["cfg"][f]
+        cls = args.get(f, "absent")
+        if f == "utls-nosni":
+            want_true = cls == "ok"
+            if bool(v) != want_true:
+                return "ClientMain/config:utls-nosni-%s" % ("set-by-another-connection" if v else "not-applied")
+            continue
+        if v == -2:
+            return "ClientMain/config:value-nobody-sent/%s" % f
+        if v not in (0, i):
+            return "ClientMain/config:argument-of-another-connection-in-force"
+        if cls in ("ok", "bad") and v != i and not (f == "max" and cls == "bad"):
+            return "ClientMain/config:own-argument-not-applied/%s" % f
+        if cls == "absent" and v != 0:
+            return "ClientMain/config:argument-of-another-connection-in-force"
+    return None
 
 
 def signature(trace, hw):
@@ -343,86 +381,107 @@ def signature(trace, hw):
     evs = trace["events"]
     e = evs[hw - 1] if 0 < hw <= len(evs) else {}
     before = evs[:max(hw - 1, 0)]
-    prev_obs = next((x for x in reversed(before) if x.get("ev") in ("obs", "pobs")), None)
-    cmd = next((x for x in reversed(before) if x.get("ev") not in ("obs", "pobs")), {})
-    cname = cmd.get("ev", "?") + (":" + cmd["d"] if "d" in cmd else "") + (":" + cmd["kind"] if "kind" in cmd else "")
-    if e.get("ev") == "pobs":
-        ptemp = sum(1 for x in before if x.get("ev") in ("Sigterm", "StdinEOF"))
-        if ptemp and not e["exited"]:
-            return "ClientMain/main:no-exit-after-%s" % cname
-        if e["exited"] and not ptemp:
-            return "ClientMain/main:exit-without-signal/after-%s" % cname
-        if cmd.get("ev") in ("Connect", "ClientChunk") and all(not c["ogot"] for c in e["conns"]) and not e["exited"]:
-            return "ClientMain/main:connections-never-reach-the-orport"
-        return "ClientMain/main:unexplained/after-%s" % cname
-    if e.get("ev") != "obs":
+    prev_obs = next((x for x in reversed(before) if x.get("ev") in ("obs", "pobs", "cobs")), None)
+    cmd = next((x for x in reversed(before) if x.get("ev") not in ("obs", "pobs", "cobs")), {})
+    cname = cmd.get("ev", "?") + (":" + cmd["kind"] if "kind" in cmd else "")
+    connects = [x for x in before if x.get("ev") == "Connect"]
+    signalled = any(x.get("ev") in ("Sigterm", "StdinEOF", "Shutdown") for x in before)
+    if e.get("ev") == "cobs":
+        if e["u"] == "signal" or e["v"] == "signal":
+            return "ClientMain/leak:copier-parked-at-done-send"
+        if e["d"] == "done" and (e["u"] != "done" or e["v"] != "done"):
+            return "ClientMain/leak:copier-left-behind"
+        for side, got in (("up", e["fgot"]), ("down", e["sgot"])):
+            if got != list(range(1, len(got) + 1)):
+                return "ClientMain/copy:%s-stream-corrupt/after-%s" % (side, cname)
+        if e["d"] == "done" and (e["sclosed"] != 1 or e["fclosed"] != 1):
+            return "ClientMain/copy:closes-socks=%d-sf=%d" % (e["sclosed"], e["fclosed"])
+        if e["d"] == "copy" and prev_obs is not None and cmd.get("ev") in ("SocksEnd", "SfEnd", "SocksWriteFail", "SfWriteFail", "SocksChunk", "SfChunk") and (e["u"], e["v"]) != ("read", "read"):
+            return "ClientMain/hang:copyLoop-does-not-return-when-one-direction-ended"
+        if cmd.get("ev") in ("SocksChunk", "SfChunk") and prev_obs is not None and e["sgot"] == prev_obs["sgot"] and e["fgot"] == prev_obs["fgot"] and e["d"] == "copy":
+            return "ClientMain/copy:chunk-missing/after-%s" % cname
+        return "ClientMain/copy:unexplained/after-%s/d=%s/u=%s/v=%s" % (cname, e["d"], e["u"], e["v"])
+    if e.get("ev") not in ("obs", "pobs"):
         return "ClientMain/unexplained:command-%s" % e.get("ev")
-    ntemp = sum(1 for x in before if x.get("ev") == "AcceptTemp")
-    nperm = sum(1 for x in before if x.get("ev") == "AcceptPerm")
-    if e["loop"] == "busy":
-        return "ClientMain/acceptLoop:not-accepting-while-a-connection-is-handled"
-    if e["loop"] == "ended" and nperm == 0:
-        return "ClientMain/acceptLoop:ended-without-permanent-error/after-%s" % cname
-    if e["loop"] != "ended" and nperm > 0:
-        return "ClientMain/acceptLoop:survives-permanent-error"
-    if e["pauses"] < ntemp and e["loop"] == "accept":
-        return "ClientMain/acceptLoop:no-pause-after-temporary-error"
+    proc = e["ev"] == "pobs"
+    if proc:
+        if signalled and not e["exited"]:
+            return "ClientMain/main:no-exit-after-%s" % next(x["ev"] for x in before if x.get("ev") in ("Sigterm", "StdinEOF"))
+        if e["exited"] and not signalled:
+            return "ClientMain/main:exit-without-signal/after-%s" % cname
+    else:
+        ntemp = sum(1 for x in before if x.get("ev") == "AcceptTemp")
+        nperm = sum(1 for x in before if x.get("ev") == "AcceptPerm")
+        if e["loop"] == "busy":
+            return "ClientMain/acceptLoop:not-accepting-while-a-connection-is-handled"
+        if e["loop"] == "ended" and nperm == 0:
+            return "ClientMain/acceptLoop:ended-without-permanent-error/after-%s" % cname
+        if e["loop"] != "ended" and nperm > 0:
+            return "ClientMain/acceptLoop:survives-permanent-error"
+        if e["loop"] == "ended" and e["lncloses"] == 0:
+            return "ClientMain/acceptLoop:ended-without-closing-the-listener"
+        if e["pauses"] < ntemp and e["loop"] == "accept":
+            return "ClientMain/acceptLoop:no-pause-after-temporary-error"
     for i, c in enumerate(e["conns"]):
         was = prev_obs["conns"][i] if prev_obs and i < len(prev_obs["conns"]) else None
-        if was is not None and {k: v for k, v in was.items() if k != "ncloses"} == {k: v for k, v in c.items() if k != "ncloses"}:
+        if was is not None and was == c:
             continue
-        if c["use"]:
-            return "ClientMain/conn:used-after-handler-returned"
-        if 0 in c["cgot"] or 0 in c["ogot"] or c["cgot"] != list(range(1, len(c["cgot"]) + 1)) or c["ogot"] != list(range(1, len(c["ogot"]) + 1)):
-            return "ClientMain/copy:%s-stream-corrupt/after-%s" % ("down" if (0 in c["cgot"] or c["cgot"] != list(range(1, len(c["cgot"]) + 1))) else "up", cname)
-        if c["h"] == "done" and not c["closed"]:
-            return "ClientMain/handler:returned-client-conn-open/%s" % ("dial-failed" if c["a"] == "none" else "after-proxy")
-        if c["h"] == "done" and c["a"] != "none" and not c["oclosed"]:
-            return "ClientMain/handler:returned-orport-conn-open"
-        if c["h"] == "done" and cmd.get("ev") == "ClientEnd" and was is not None and was["h"] == "wait" and c["ogot"] == was["ogot"] and c["oclosed"]:
-            return "ClientMain/handler:did-not-wait-for-orport-after-client-end"
-        if c["h"] == "wait" and c["b"] == "done" and not c["closed"] and cmd.get("ev") == "ClientEnd":
-            return "ClientMain/conn:left-open-after-client-end"
-        if c["h"] == "stats":
-            return "ClientMain/handler:parked-at-stats-send"
-        if c["h"] == "wait" and (c["a"], c["b"]) == ("done", "read"):
-            return "ClientMain/hang:client-to-orport-copier-left-behind/after-%s" % cname
-        if c["h"] == "wait" and (c["a"], c["b"]) == ("read", "done") and cmd.get("ev") in ("OrFin", "OrReset", "OrChunk"):
-            return "ClientMain/hang:orport-to-client-copier-left-behind/after-%s" % cname
-        if c["h"] == "wait" and (c["a"], c["b"]) == ("done", "done"):
-            return "ClientMain/hang:handler-in-wait-with-both-copiers-gone"
-        if c["oclosed"] and c["h"] != "done":
-            return "ClientMain/orport:closed-before-copiers-ended/after-%s" % cname
-        if was is not None and len(c["ogot"]) < c["taken"] and c["b"] == "read" and cmd.get("ev") == "ClientChunk":
-            return "ClientMain/copy:up-chunk-missing"
-        if was is not None and cmd.get("ev") == "OrChunk" and c["a"] == "read" and len(c["cgot"]) == len(was["cgot"]):
-            return "ClientMain/copy:down-chunk-missing"
-        return "ClientMain/unexplained:after-%s/h=%s/a=%s/b=%s/closed=%s/ofin=%s/oclosed=%s/dialerr=%s" % (
-            cname, c["h"], c["a"], c["b"], c["closed"], c["ofin"], c["oclosed"], c["dialerr"])
-    return "ClientMain/unexplained:after-%s/loop=%s" % (cname, e["loop"])
+        args = connects[i]["args"] if i < len(connects) else {}
+        bad_max = args.get("max") == "bad"
+        sig = config_signature(i + 1, c, args)
+        if sig:
+            return sig
+        if c["reply"] == "none" or c["reply"] == "error":
+            return "ClientMain/reply:none/%s" % ("handshake-failed" if c.get("hserr") else "after-" + cname)
+        if bad_max and c["reply"] != "rejected":
+            return "ClientMain/reply:granted-although-max-is-not-a-number"
+        if c["reply"] == "rejected" and not bad_max and not any(args.get(f) == "bad" for f in ("url", "ampcache", "utls-imitate")):
+            return "ClientMain/reply:rejected-although-every-argument-is-acceptable"
+        if c["reply"] == "granted" and any(args.get(f) == "bad" for f in ("url", "ampcache", "utls-imitate")):
+            return "ClientMain/reply:granted-although-the-config-is-refused"
+        if not bad_max and not c.get("hascfg"):
+            return "ClientMain/config:not-seen"
+        if not proc:
+            if c["h"] == "done" and not c["sclosed"]:
+                return "ClientMain/handler:returned-socks-conn-open"
+            if signalled and c["h"] != "done":
+                return "ClientMain/shutdown:handler-still-there/h=%s" % c["h"]
+            if c["u"] == "signal" or c["v"] == "signal":
+                return "ClientMain/leak:copier-parked-at-done-send"
+            if c["h"] == "done" and c["d"] == "done" and (c["u"] != "done" or c["v"] != "done"):
+                return "ClientMain/leak:copier-left-behind"
+            if c["h"] == "select" and cmd.get("ev") == "SocksEnd" and cmd.get("i") == i + 1:
+                return "ClientMain/hang:handler-stays-after-the-socks-stream-ended/d=%s/u=%s/v=%s" % (c["d"], c["u"], c["v"])
+        else:
+            if signalled and not c["sclosed"]:
+                return "ClientMain/main:socks-conn-open-after-exit"
+    if not proc:
+        if signalled and not e["wgzero"]:
+            return "ClientMain/shutdown:waitgroup-not-zero"
+        ndone = sum(1 for c in e["conns"] if c["d"] == "done")
+        if e["sfcloses"] != ndone:
+            return "ClientMain/dial:snowflake-conn-closed-%d-times-for-%d-finished-dials" % (e["sfcloses"], ndone)
+    return "ClientMain/unexplained:after-%s" % cname
 
 
-def trace_cfg(mode, nostats=False):
+def trace_cfg(mode):
     consts = extgraph.with_constants(extgraph.read_cfg_constants(os.path.join(SPECDIR, "Trace.cfg")),
-                                     WithMain="TRUE" if mode == "proc" else "FALSE", StatsThread="FALSE" if nostats else "TRUE",
+                                     WithMain="TRUE" if mode == "proc" else "FALSE", Mode='"copy"' if mode == "copy" else '"socks"',
+                                     SfScripted="TRUE" if mode == "copy" else "FALSE",
                                      MaxPerm="0" if mode == "proc" else "1")
-    invs = [i for i in TINVS if not (nostats and i == "TNoStuck")]
-    return extgraph.cfg_text(consts, "TSpec", constraint="Mark", post="Post", invariants=invs)
+    return extgraph.cfg_text(consts, "TSpec", constraint="Mark", post="Post", invariants=TINVS)
 
 
-def validate(chk, traces, tag, nostats=False):
+def validate(chk, traces, tag):
     """TLC decides, per trace, whether ClientMain explains it.  Returns (accepted, [(trace, hw)] rejected)."""
     groups = collections.defaultdict(list)
     for t in traces:
         if t.get("note"):
             raise vlib.Inconclusive("clientmain harness: schedule %s: %s" % (t["id"], t["note"]))
-        if (t.get("info") or {}).get("fd_not_found"):
-            raise vlib.Inconclusive("clientmain harness: schedule %s: the handler's end of the ORPort connection was not found among the process's descriptors" % t["id"])
         groups[t["mode"]].append(t)
     jobs = []
     for mode, ts in sorted(groups.items()):
         d = vlib.scratch("climain-tv")
-        # several JVMs side by side for the big group
         nparts = 4 if len(ts) > 100 else 1
         for pi in range(nparts):
             part = ts[pi::nparts]
@@ -430,7 +489,7 @@ def validate(chk, traces, tag, nostats=False):
             vlib.write_ndjson(f, part)
             cfgname = "TV_%s.cfg" % mode
             jobs.append((mode, part, extgraph.Bg(vlib.tlc, SPECDIR, "ClientMain_Trace", cfgname, workers=1, timeout=900,
-                                                 files={"traces.ndjson": f, cfgname: trace_cfg(mode, nostats)}, heap="3g")))
+                                                 files={"traces.ndjson": f, cfgname: trace_cfg(mode)}, heap="3g")))
     accepted, rejected = 0, []
     for mode, ts, bg in jobs:
         r = bg.get()
@@ -445,9 +504,12 @@ def validate(chk, traces, tag, nostats=False):
     return accepted, rejected
 
 
+MODE_TEXT = {"socks": "socksAcceptLoop with its handlers, in-package", "copy": "copyLoop between two scripted conns", "proc": "main() in a child process"}
+
+
 def report(chk, binary, rejected, byid):
     """turn rejected traces into violations; every rejection is confirmed by running the same schedule alone
-    with a doubled patience first (the machine may be heavily loaded: what does not reproduce alone is no verdict)"""
+    with more patience first (the machine may be heavily loaded: what does not reproduce alone is no verdict)"""
     seen = collections.Counter()
     for t, hw in rejected:
         sig = signature(t, hw)
@@ -465,24 +527,11 @@ def report(chk, binary, rejected, byid):
         t, hw = rej2[0]
         e = t["events"][hw - 1] if hw <= len(t["events"]) else {}
         what = ("the real client main loop (%s) did something spec/ClientMain does not allow: first unexplained event #%d: %s; schedule: %s" % (
-            "main() in a child process" if t["mode"] == "proc" else "acceptLoop/handleConn/proxy in-package", hw, brief(e), json.dumps(sched["steps"])))
+            MODE_TEXT[t["mode"]], hw, brief(e), json.dumps(sched["steps"])))
         chk.violation(sig, what, {"kind": "clientmain", "schedule": sched, "trace": t, "first_unexplained": hw})
     for sig, n in seen.items():
         if n > 1:
             chk.note("  %s: %d traces" % (sig, n))
-
-
-def nostats_demo(chk, binary):
-    """the what-if "nobody receives from statsChannel" on the real code: without statsThread every handler parks
-    at its first statement - shows that the harness sees that place and that the rendezvous is what lets handlers pass"""
-    s = {"id": 1, "mode": "gated", "steps": [{"op": "Accept", "d": "ok"}, {"op": "Accept", "d": "ok"}], "src": "whatif:nostats"}
-    traces = run_schedules(binary, [s], "nostats", shards=1, extra_env={"VERIF_CLI_NOSTATS": "1"})
-    acc, rej = validate(chk, traces, "nostats", nostats=True)
-    obs = [e for e in traces[0]["events"] if e.get("ev") == "obs"]
-    if rej or not obs or any(c["h"] != "stats" for c in obs[-1]["conns"]):
-        chk.fail("ClientMain: without statsThread the handlers were expected to park at the statsChannel send (what-if StatsThread = FALSE); observed: %s" % (
-            brief(obs[-1]) if obs else "nothing"))
-    return acc
 
 
 # --------------------------------------------------------------------------
@@ -490,7 +539,7 @@ def nostats_demo(chk, binary):
 def run_clientmain_part(chk, args):
     chk.known.extend(k for k in KNOWN if k not in chk.known)
     q = chk.tier == "quick"
-    rng = random.Random(chk.seed * 7919 + 5051)
+    rng = random.Random(chk.seed * 7919 + 1515)
     vlib.repo_modfile()
     build = extgraph.Bg(harness_binary)
     scheds, seen = [], set()
@@ -504,76 +553,75 @@ def run_clientmain_part(chk, args):
         scheds.append(s)
 
     try:
-        gcfg = "Gen_q.cfg" if q else "Gen_one.cfg"
-        graph_job = extgraph.Bg(dump_graph, chk, gcfg)
-        main_job = extgraph.Bg(dump_graph, chk, "Gen_main.cfg")
-        sims = (("Gen_two.cfg", 150, 40), ("Gen_sim.cfg", 100, 60)) if q else (("Gen_two.cfg", 1500, 40), ("Gen_sim.cfg", 1500, 60))
-        sim_jobs = [(cfg, extgraph.Bg(simulate, chk, cfg, num, depth)) for cfg, num, depth in sims]
+        graphs = [("Gen_copy.cfg", 10 ** 6, 100 if q else 1000, 14), ("Gen_socks1.cfg", 10 ** 6, 100 if q else 600, 12), ("Gen_main.cfg", 10 if q else 60, 0, 10)]
+        graph_jobs = [(g, extgraph.Bg(dump_graph, chk, g[0])) for g in graphs]
+        # the full precedence table (1 944 argument vectors) is cut into 32 slices; the seed picks which ones are simulated
+        parts = [(chk.seed * 7 + k * 5) % 32 for k in range(1 if q else 6)]
+        sims = [("Gen_socks2.cfg", 150 if q else 1200, 40, None, "")] + [("Gen_sim.cfg", 100 if q else 300, 60, {"Part": str(pt)}, "-p%d" % pt) for pt in parts]
+        if not q:
+            sims.append(("Gen_main2.cfg", 60, 40, None, ""))
+        sim_jobs = [(cfg, extgraph.Bg(simulate, chk, cfg, num, depth, over, tag)) for cfg, num, depth, over, tag in sims]
         started = model_check_start(chk, q)
         gs = guard_schedules(chk, started)
-        chk.note("ClientMain: %d what-if / as-is configurations violate exactly the property they target; %d counterexample schedules" % (
-            len(chk.cov.get("clientmain_whatif", [])), len(gs)))
+        chk.note("ClientMain: %d what-if / as-is configurations; %d counterexample schedules at the replay grain" % (len(chk.cov.get("clientmain_whatif", [])), len(gs)))
         for s in gs:
             add(s)
         stats = {}
-        g, r = graph_job.get()
-        chk.add_tlc(r)
-        paths, total, covered = g.covering(rng, 10 ** 6, maxcmds=16)
-        for p in paths:
-            add({"mode": "gated", "steps": g.steps(p), "src": "cover:" + gcfg})
-        for p in g.walks(rng, 100 if q else 1500, 14):
-            add({"mode": "gated", "steps": g.steps(p), "src": "walk:" + gcfg})
-        stats[gcfg] = {"states": r.distinct, "edges": len(g.edges), "command_edges": total, "command_edges_covered": covered, "paths": len(paths)}
-        chk.note("ClientMain GenSpec %s: %d states, %d edges, %d/%d command edges covered by %d paths" % (gcfg, r.distinct, len(g.edges), covered, total, len(paths)))
+        for (cfg, limit, nwalk, maxcmds), bg in graph_jobs:
+            g, r = bg.get()
+            chk.add_tlc(r)
+            mode = GEN_MODE[cfg]
+            paths, total, covered = g.covering(rng, 10 ** 6, maxcmds=maxcmds)
+            if mode == "proc":
+                paths = [p for p in paths if any(c["op"] in ("Sigterm", "StdinEOF") for c in g.steps(p))]
+                rng.shuffle(paths)
+                paths = paths[:limit]
+            for p in paths:
+                add({"mode": mode, "steps": g.steps(p), "src": "cover:" + cfg})
+            for p in g.walks(rng, nwalk, maxcmds):
+                add({"mode": mode, "steps": g.steps(p), "src": "walk:" + cfg})
+            stats[cfg] = {"states": r.distinct, "edges": len(g.edges), "command_edges": total, "command_edges_covered": covered, "paths": len(paths)}
+            chk.note("ClientMain GenSpec %s: %d states, %d edges, %d/%d command edges covered, %d paths taken" % (cfg, r.distinct, len(g.edges), covered, total, len(paths)))
         for cfg, bg in sim_jobs:
             r, behs = bg.get()
             chk.add_tlc(r)
             for steps in behs:
-                add({"mode": "gated", "steps": steps, "src": "simulate:" + cfg})
-        # the configuration with main: behaviours for the child-process rig
-        gm, r = main_job.get()
-        chk.add_tlc(r)
-        nproc = 0
-        if PROC_ENABLED:
-            pp, ptotal, pcov = gm.covering(rng, 10 ** 6, maxcmds=10)
-            pp = [p for p in pp if any(c["op"] in ("Sigterm", "StdinEOF") for c in gm.steps(p)) and not any(c.get("d") == "fail" for c in gm.steps(p))]
-            rng.shuffle(pp)
-            for p in pp[:(10 if q else 60)]:
-                before = len(scheds)
-                add({"mode": "proc", "steps": [dict(c, op="Connect") if c["op"] == "Accept" else c for c in gm.steps(p)], "src": "cover:Gen_main.cfg"})
-                nproc += len(scheds) - before
-            stats["Gen_main.cfg"] = {"states": r.distinct, "edges": len(gm.edges), "command_edges": ptotal, "paths_with_signal": len(pp), "taken": nproc}
+                if GEN_MODE[cfg] == "proc" and not any(c["op"] in ("Sigterm", "StdinEOF") for c in steps):
+                    continue
+                add({"mode": GEN_MODE[cfg], "steps": steps, "src": "simulate:" + cfg})
         chk.cov.setdefault("generation", {}).update({"ClientMain:" + k: v for k, v in stats.items()})
         if len(scheds) < 200:
             raise vlib.Inconclusive("vacuous: only %d client main loop schedules generated" % len(scheds))
         binary = build.get()
-        gated = [s for s in scheds if s["mode"] == "gated"]
+        inpkg = [s for s in scheds if s["mode"] != "proc"]
         procs = [s for s in scheds if s["mode"] == "proc"]
         pj = extgraph.Bg(run_schedules, binary, procs, "proc", None, 2, None, chk)
-        nj = extgraph.Bg(nostats_demo, chk, binary)
-        traces = run_schedules(binary, gated, "main", chk=chk) + pj.get()
+        traces = run_schedules(binary, inpkg, "main", chk=chk) + pj.get()
         scheds = [s for s in scheds if s["id"] not in CRASHED]
         byid = {s["id"]: s for s in scheds}
         skipped = sum(t["skipped"] for t in traces)
         ncmd = sum(len(s["steps"]) for s in scheds)
-        chk.note("ClientMain: replayed %d schedules with %d commands on the real code (%d in-package, %d against main() in a child process; %d commands not applicable)" % (
-            len(scheds), ncmd, len(gated), len(procs), skipped))
+        nmode = collections.Counter(s["mode"] for s in scheds)
+        chk.note("ClientMain: replayed %d schedules with %d commands on the real code (%d socks, %d copyLoop, %d against main() in a child process; %d commands not applicable)" % (
+            len(scheds), ncmd, nmode["socks"], nmode["copy"], nmode["proc"], skipped))
         if skipped * 5 > max(ncmd, 1):
             raise vlib.Inconclusive("more than 20%% of the commands (%d of %d) were not applicable: the model does not describe the code" % (skipped, ncmd))
         accepted, rejected = validate(chk, traces, "main")
         report(chk, binary, rejected, byid)
-        accepted += nj.get()
         model_check_collect(chk, started)
-        chk.cov["evaluations"] += len(scheds) + 1
+        chk.cov["evaluations"] += len(scheds)
         chk.cov["distinct_nontrivial"] += sum(1 for s in scheds if nontrivial(s))
         chk.cov["traces_validated_against_impl"] += accepted
         exits = [e["ms"] for t in traces if t["mode"] == "proc" for e in t["events"] if e.get("ev") == "pobs" and e.get("exited") and "ms" in e]
-        chk.cov["clientmain"] = {"schedules": len(scheds), "in_package": len(gated), "child_process": len(procs), "commands": ncmd, "commands_skipped": skipped,
-                                 "accepted": accepted, "rejected": len(rejected), "exit_ms_max": max(exits) if exits else None}
-        for s in gated[:1] + procs[:1]:
-            t = next(t for t in traces if t["id"] == s["id"])
-            chk.sample({"servermain_schedule": {k: s[k] for k in ("mode", "src")}, "steps": s["steps"],
-                        "last_observation": brief(t["events"][-1]) if t["events"] else None}, limit=5)
+        argvecs = {json.dumps(x["args"], sort_keys=True) for s in scheds for x in s["steps"] if x["op"] == "Connect"}
+        chk.cov["clientmain"] = {"schedules": len(scheds), "socks": nmode["socks"], "copyloop": nmode["copy"], "child_process": nmode["proc"], "commands": ncmd,
+                                 "commands_skipped": skipped, "accepted": accepted, "rejected": len(rejected), "distinct_argument_vectors": len(argvecs),
+                                 "exit_ms_max": max(exits) if exits else None}
+        for m in ("socks", "copy", "proc"):
+            for s in [x for x in scheds if x["mode"] == m][:1]:
+                t = next(t for t in traces if t["id"] == s["id"])
+                chk.sample({"clientmain_schedule": {k: s[k] for k in ("mode", "src")}, "steps": s["steps"],
+                            "last_observation": brief(t["events"][-1]) if t["events"] else None}, limit=6)
     except vlib.Inconclusive as e:
         chk.fail(str(e))
         try:
@@ -582,15 +630,12 @@ def run_clientmain_part(chk, args):
             pass
     chk.assumptions += [
         "ClientMain: gated replays issue commands only when every goroutine of the code under test is parked (GenSpec); finer interleavings are covered by TLC on the model",
-        "ClientMain: the client conn is a scripted net.Conn that behaves like the real one (smux stream) at Close: Close unblocks Read, later Read/Write/Close return io.ErrClosedPipe",
-        "ClientMain: the ORPort is a loopback TCP listener of the harness behind the real pt.DialOr (plain ORPort; ExtORPort metadata is C18's subject); it always reads (no back-pressure)",
-        "ClientMain: an observation waits (at most 2 s, 5 s in the confirmation run) for loopback TCP to deliver what parked goroutines have written; a pause of the accept loop is a gap of at least 4 ms between a temporary error and the next Accept call",
-        "ClientMain: or.Close() is observed through the descriptor table of the process (the handler's end of the loopback connection is gone or replaced)",
+        "ClientMain: the ClientConfig a handler builds is observed where it is handed to sf.NewSnowflakeClient (guarded hook newclient.config); every value carries the identity of the connection (or of the command line) it came from",
+        "ClientMain: the real Transport runs with unusable ICE servers, so every attempt to obtain a peer fails before any rendezvous (C15 owns that loop); its Dial never fails; SnowflakeConn.Close is seen through its log line",
+        "ClientMain: for copyLoop the two conns are scripted and the closes of its callers (dial goroutine: sconn.Close(); handler: conn.Close()) are mirrored in that order",
+        "ClientMain: an observation waits (at most 2 s, 5 s in the confirmation run) for loopback TCP to deliver replies and closes; a pause of the accept loop is a gap of at least 4 ms between a temporary error and the next Accept call",
         "ClientMain: the child-process rig waits 10 s for main() to exit after the signal",
     ]
-
-
-PROC_ENABLED = True
 
 
 def replay_part(chk, rp):
@@ -612,4 +657,4 @@ def run(chk, args):
         with open(args.replay) as fh:
             return replay_part(chk, json.load(fh)["replay"])
     run_clientmain_part(chk, args)
-    chk.cov["rule"] = "one evaluation = one schedule executed on the real client main loop and judged by TLC; non-trivial = contains an error / end-of-stream / shutdown event next to other commands"
+    chk.cov["rule"] = "one evaluation = one schedule executed on the real client main loop and judged by TLC; non-trivial = contains an error / end-of-stream / shutdown event or a SOCKS request with arguments next to other commands"
